@@ -108,6 +108,8 @@ template <class A, class T> void load_any(T& target, const std::string& bytes, i
 // ---- 1. truncated input ---------------------------------------------------------------------------------------------------------
 // a target that knows only some members of the document: the rest is skipped (unknown keys, unread rest of the object)
 struct Partial { int64_t a = 0; std::string o; template <class A> void Serialize(A& ar) { ar << KeyValue("o", o) << KeyValue("a", a); } };
+// a target that reads the first two members in stored order: everything behind them is unread when the scope is closed
+struct Leading { int64_t a = 0; std::string s; template <class A> void Serialize(A& ar) { ar << KeyValue("a", a) << KeyValue("s", s); } };
 template <class A, class T, class TTarget = T, class G> void run_trunc(vf::Ctx& c, int archId, G gen) {
 	T v = gen(c.src); const std::string full = save_ref<A>(v); if (full.empty()) c.discard("reference save failed");
 	const int medium = static_cast<int>(c.src.draw(4)); const size_t chunk = 1 + c.src.draw(40); SerializationOptions opt; gen_policies(c.src, opt);
@@ -213,7 +215,7 @@ struct BadText { std::string ok1 = "fine"; std::string bad; std::string ok2 = "a
 #define GEN_ROWS [](vf::Src& s) { return gen_rows(s); }
 #define R_TRUNC "object with 12 members (int64, strings beyond the small-string size, vector, nested object with validators, byte container, array of objects, map, optional, UTF-16 string, unique_ptr, array of byte containers, double) of generated sizes, saved and then loaded from every strict prefix of the document (one position, a window of <= 16, or all positions) from memory, istringstream, short-read and non-seekable streams under both mismatch policies; oracle: an exception derived from std::exception reaches the caller (MessagePack: always; other formats may accept a prefix that is a document), the child process neither terminates, crashes, exceeds its CPU budget nor leaks; non-trivial = more than one position"
 VF_PROPERTY(truncated_msgpack, 4, R_TRUNC) { run_trunc<MsgPackArchive, Cls>(c, MSGPACK, GEN_CLS(MSGPACK)); }
-VF_PROPERTY(truncated_msgpack_partial_target, 2, "same documents loaded into a class that knows only two of the twelve members (requested in another order than stored): everything else is skipped; every strict prefix must still be rejected") { run_trunc<MsgPackArchive, Cls, Partial>(c, MSGPACK, GEN_CLS(MSGPACK)); }
+VF_PROPERTY(truncated_msgpack_partial_target, 2, "same documents loaded into a class that knows only two of the twelve members (requested in another order than stored, or the two leading ones so that the rest is unread when the scope closes): everything else is skipped; every strict prefix must still be rejected") { if (c.src.coin()) run_trunc<MsgPackArchive, Cls, Partial>(c, MSGPACK, GEN_CLS(MSGPACK)); else run_trunc<MsgPackArchive, Cls, Leading>(c, MSGPACK, GEN_CLS(MSGPACK)); }
 VF_PROPERTY(truncated_json, 2, "same through JSON") { run_trunc<JsonArchive, Cls>(c, JSON, GEN_CLS(JSON)); }
 VF_PROPERTY(truncated_xml, 2, "same through XML") { run_trunc<XmlArchive, Cls>(c, XML, GEN_CLS(XML)); }
 VF_PROPERTY(truncated_csv, 2, "same through CSV (1..5 rows of 4 columns with quoted cells)") { run_trunc<CsvArchive, std::vector<Row>>(c, CSV, GEN_ROWS); }
